@@ -22,3 +22,7 @@ m("create.features_raw", "src/polyseed.c", "seed->features = seed_features;", "s
 m("enable.fastpath", "src/features.c", "    int num_enabled = 0;\n", "    int num_enabled = 0;\n    if ((mask & USER_FEATURES_MASK) == 0) return 0;\n", ["U.ft.enable"])
 m("load.order", "src/polyseed.c", "    /* checksum */\n    if (!gf_poly_check(&poly)) {\n        polyseed_free(seed);\n        res = POLYSEED_ERR_CHECKSUM;\n        goto cleanup;\n    }\n\n    /* check features */\n    if (!polyseed_features_supported(seed->features)) {\n        polyseed_free(seed);\n        res = POLYSEED_ERR_UNSUPPORTED;\n        goto cleanup;\n    }\n\n    res = POLYSEED_OK;\n    *seed_out = seed;",
   "    /* check features */\n    if (!polyseed_features_supported(seed->features)) {\n        polyseed_free(seed);\n        res = POLYSEED_ERR_UNSUPPORTED;\n        goto cleanup;\n    }\n\n    /* checksum */\n    if (!gf_poly_check(&poly)) {\n        polyseed_free(seed);\n        res = POLYSEED_ERR_CHECKSUM;\n        goto cleanup;\n    }\n\n    res = POLYSEED_OK;\n    *seed_out = seed;", ["U.api.load"])
+
+m("cmp.str_no_nul", "src/lang.c", "        if (*key == '\\0' || *key != *elm) {\n            break;\n        }\n        ++key;\n        ++elm;\n    }\n    return (*key > *elm) - (*key < *elm);\n}\n\nstatic int compare_str_wrap",
+  "        if (*key != *elm) {\n            break;\n        }\n        ++key;\n        ++elm;\n    }\n    return (*key > *elm) - (*key < *elm);\n}\n\nstatic int compare_str_wrap", ["U.cmp.str"])
+m("cmp.prefix3", "src/lang.c", "#define NUM_CHARS_PREFIX 4", "#define NUM_CHARS_PREFIX 3", ["B.cmp.prefix"])
